@@ -4,12 +4,15 @@ EXTENDS Writer, Json
 \* the helper file appears (v3) and disappears again (v1, v2), an output becomes empty (v4)
 \* v5: the sources of v1 with other line endings (CRLF): for backends that copy a multi-line doc comment through, the
 \* output differs from v1's in CR bytes only - a difference a line-wise comparison would not see
-MCVersions == {"v1", "v2", "v3", "v4", "v5"}
+\* v6: the sources of v1 plus an item typeshare must reject (a u64 field) in the crate that is written second: the run fails
+MCVersions == {"v1", "v2", "v3", "v4", "v5", "v6"}
+MCFails == [v \in MCVersions |-> v = "v6"]
 MCGen == [v \in MCVersions |->
     CASE v = "v1" -> [a |-> "A1", b |-> "B1"]
       [] v = "v2" -> [a |-> "A2"]
       [] v = "v3" -> [a |-> "A1", b |-> "B3", codable |-> "CV"]
       [] v = "v4" -> [a |-> "A1", b |-> ""]
-      [] v = "v5" -> [a |-> "A1cr", b |-> "B1"]]
+      [] v = "v5" -> [a |-> "A1cr", b |-> "B1"]
+      [] v = "v6" -> [a |-> "A1", b |-> "B6"]]
 EmitHistory == PrintT(<<"REPLAY", ToJson([history |-> hist])>>)
 =============================================================================
